@@ -70,6 +70,31 @@ theorem renderL_singleton (m : Mode) (files : Files) (J : RJ) (rng : Rng) (n : N
 
 theorem eraseL_cons (n : Node) (ns : List Node) : eraseL (n :: ns) = eraseN n ++ eraseL ns := rfl
 
+mutual
+theorem eraseN_plain : ∀ (n : Node), plainN n = true → eraseN n = [n]
+  | .text _, _ => rfl
+  | .elem t b, h => by simp only [eraseN]; rw [eraseL_plain b (by simpa [plainN] using h)]
+  | .var _, h => by simp [plainN] at h
+  | .cond _ _, h => by simp [plainN] at h
+  | .loop _ _ _, h => by simp [plainN] at h
+  | .defn _ _, h => by simp [plainN] at h
+  | .call _, h => by simp [plainN] at h
+  | .matchT _ _, h => by simp [plainN] at h
+  | .select, h => by simp [plainN] at h
+  | .include _ _ _ _ _, h => by simp [plainN] at h
+  | .inlined _, h => by simp [plainN] at h
+termination_by structural n => n
+theorem eraseL_plain : ∀ (ns : List Node), plainL ns = true → eraseL ns = ns
+  | [], _ => rfl
+  | n :: ns, h => by
+    simp only [plainL, Bool.and_eq_true] at h
+    rw [eraseL_cons, eraseN_plain n h.1, eraseL_plain ns h.2]; rfl
+termination_by structural ns => ns
+end
+
+theorem eraseL_evsToNodes (c : List Ev) : eraseL (evsToNodes c) = evsToNodes c :=
+  eraseL_plain _ (evsToNodes_plain c)
+
 /-! ## marked ⇒ unmarked, with the same fuel -/
 
 theorem Le.trans {α : Type} {x y z : Res α} (h1 : Le x y) (h2 : Le y z) : Le x z := by
@@ -127,7 +152,19 @@ theorem eraseN_le (files : Files) {J J' : RJ}
       exact Le.bindE (eraseL_le files hJ hJ2 body rng st) fun o s => .inr rfl
     | some p =>
       obtain ⟨idx, mb⟩ := p
-      exact Le.bindE (eraseL_le files hJ hJ2 body _ st) fun o s => hJ _ mb s
+      refine Le.bindE (eraseL_le files hJ hJ2 body _ st) fun o s => ?_
+      refine Le.bindE (hJ _ mb { s with sel := o :: s.sel }) fun o2 s2 => ?_
+      exact .inr rfl
+  | .select, rng, st => by
+    simp only [eraseN, renderL_singleton, renderN_select]
+    show Le (mapE (match st.sel with | [] => .err .undefined | c :: _ => J rng (evsToNodes c) st))
+      (match st.sel with | [] => .err .undefined | c :: _ => J' rng (evsToNodes c) (eraseSt st))
+    cases st.sel with
+    | nil => exact .inr rfl
+    | cons c _ =>
+      have := hJ rng (evsToNodes c) st
+      rw [eraseL_evsToNodes] at this
+      exact this
   | .cond c body, rng, st => by
     simp only [eraseN, renderL_singleton, renderN_cond, evalCond_erase]
     cases evalCond st c with
@@ -278,7 +315,19 @@ theorem eraseN_up (files : Files) {J' : RJ}
     | none => exact Up.bind (eraseL_up files hJ body rng st) fun o s => Up.const rfl
     | some p =>
       obtain ⟨idx, mb⟩ := p
-      exact Up.bind (eraseL_up files hJ body _ st) fun o s => hJ _ mb s
+      refine Up.bind (eraseL_up files hJ body _ st) fun o s => ?_
+      refine Up.bind (hJ _ mb { s with sel := o :: s.sel }) fun o2 s2 => ?_
+      exact Up.const rfl
+  | .select, rng, st => by
+    simp only [eraseN, renderL_singleton, renderN_select]
+    show Up (match st.sel with | [] => .err .undefined | c :: _ => J' rng (evsToNodes c) (eraseSt st))
+      (fun g => match st.sel with | [] => .err .undefined | c :: _ => render .inlineM files g rng (evsToNodes c) st)
+    cases st.sel with
+    | nil => exact Up.const rfl
+    | cons c _ =>
+      have := hJ rng (evsToNodes c) st
+      rw [eraseL_evsToNodes] at this
+      exact this
   | .cond c body, rng, st => by
     simp only [eraseN, renderL_singleton, renderN_cond, evalCond_erase]
     cases evalCond st c with
